@@ -34,8 +34,16 @@ import (
 	"time"
 
 	"github.com/gagliardetto/solana-go"
+	"github.com/ipfs/go-cid"
+	carv1 "github.com/ipld/go-car"
+	"github.com/ipld/go-ipld-prime/datamodel"
+	cidlink "github.com/ipld/go-ipld-prime/linking/cid"
 	"github.com/mr-tron/base58"
+	"github.com/rpcpool/yellowstone-faithful/ipld/ipldbindcode"
+	"github.com/rpcpool/yellowstone-faithful/iplddecoders"
 	old_faithful_grpc "github.com/rpcpool/yellowstone-faithful/old-faithful-proto/old-faithful-grpc"
+	"github.com/rpcpool/yellowstone-faithful/third_party/solana_proto/confirmed_block"
+	"github.com/rpcpool/yellowstone-faithful/tooling"
 	"github.com/rpcpool/yellowstone-faithful/txstatus"
 	zz "github.com/rpcpool/yellowstone-faithful/zzverif"
 	"github.com/valyala/fasthttp"
@@ -274,8 +282,103 @@ type c08World struct {
 	addrs    []solana.PublicKey
 	txBytes  [][]byte // raw transactions (for blockContainsAccounts)
 	metaRaw  [][]byte
-	txAddrs  [][]solana.PublicKey
+	txStatic [][]solana.PublicKey
+	txLoaded [][]solana.PublicKey
 	cfgPaths []string
+	// a fourth server: one epoch whose blocks carry Rewards nodes (commission "", "7", "abc", …)
+	rewardSlots []uint64
+	rewardEp    *loadedEpoch
+}
+
+const c08RewardsEpochNo = 5
+
+var c08Commissions = []string{"", "7", "100", "abc", "12abc", " ", "-", "NaN"}
+
+// c08AddRewards rewrites a generated CAR so that block i links to a Rewards node (protobuf, zstd, one frame)
+// whose single reward has commission c08Commissions[i]; CIDs of the block, the subset and the epoch follow.
+func c08AddRewards(ge *gEpoch, dir string) (*gEpoch, error) {
+	w := &carW{}
+	repl := map[cid.Cid]cid.Cid{}
+	relink := func(ls []datamodel.Link) []datamodel.Link {
+		out := make([]datamodel.Link, len(ls))
+		for i, l := range ls {
+			c := l.(cidlink.Link).Cid
+			if n, ok := repl[c]; ok {
+				c = n
+			}
+			out[i] = cidlink.Link{Cid: c}
+		}
+		return out
+	}
+	nb := 0
+	var root cid.Cid
+	for _, ob := range ge.Objs {
+		switch ob.Kind {
+		case 2:
+			blk, err := iplddecoders.DecodeBlock(ob.Data)
+			if err != nil {
+				return nil, err
+			}
+			if nb < len(c08Commissions) {
+				rw := &confirmed_block.Rewards{Rewards: []*confirmed_block.Reward{{Pubkey: ge.Keys[0].PublicKey().String(), Lamports: 5, PostBalance: 10,
+					RewardType: confirmed_block.RewardType_Voting, Commission: c08Commissions[nb]}}}
+				raw, err := proto.Marshal(rw)
+				if err != nil {
+					return nil, err
+				}
+				z, _ := tooling.CompressZstd(raw)
+				node := ipldbindcode.Rewards{Kind: 5, Slot: blk.Slot, Data: w.frames(z, 1, 5)}
+				enc, err := node.MarshalCBOR()
+				if err != nil {
+					return nil, err
+				}
+				blk.Rewards = cidlink.Link{Cid: w.put(enc)}
+			}
+			nb++
+			enc, err := blk.MarshalCBOR()
+			if err != nil {
+				return nil, err
+			}
+			repl[ob.Cid] = w.put(enc)
+		case 3:
+			sub, err := iplddecoders.DecodeSubset(ob.Data)
+			if err != nil {
+				return nil, err
+			}
+			sub.Blocks = relink(sub.Blocks)
+			enc, err := sub.MarshalCBOR()
+			if err != nil {
+				return nil, err
+			}
+			repl[ob.Cid] = w.put(enc)
+		case 4:
+			ep, err := iplddecoders.DecodeEpoch(ob.Data)
+			if err != nil {
+				return nil, err
+			}
+			ep.Subsets = relink(ep.Subsets)
+			enc, err := ep.MarshalCBOR()
+			if err != nil {
+				return nil, err
+			}
+			root = w.put(enc)
+		default:
+			w.put(ob.Data)
+		}
+	}
+	var out bytes.Buffer
+	if err := carv1.WriteHeader(&carv1.CarHeader{Roots: []cid.Cid{root}, Version: 1}, &out); err != nil {
+		return nil, err
+	}
+	out.Write(w.buf.Bytes())
+	g2 := *ge
+	g2.Root = root
+	g2.Car = filepath.Join(dir, fmt.Sprintf("epoch-%d-rewards.car", ge.Epoch))
+	g2.CarData = out.Bytes()
+	if err := os.WriteFile(g2.Car, g2.CarData, 0o644); err != nil {
+		return nil, err
+	}
+	return &g2, nil
 }
 
 const c08FixtureSeed = 0xC08C08
@@ -353,6 +456,34 @@ func c08BuildWorld(dir string, child bool) (*c08World, error) {
 		w.epochsOf = append(w.epochsOf, nums)
 		w.gsfaOf = append(w.gsfaOf, gsfa)
 	}
+	if !child {
+		rdir := filepath.Join(dir, "rewards")
+		os.MkdirAll(rdir, 0o755)
+		ge := genEpoch(zz.NewRNG(c08FixtureSeed+1), rdir, genOpts{Epoch: c08RewardsEpochNo, NBlocks: len(c08Commissions) + 1, MaxTx: 2, SkipPct: 20, NKeys: 3, KeySeedBase: 9})
+		g2, err := c08AddRewards(ge, rdir)
+		if err != nil {
+			return nil, fmt.Errorf("rewards epoch: %w", err)
+		}
+		le, err := buildIndexes(g2, rdir, false)
+		if err != nil {
+			return nil, fmt.Errorf("rewards epoch: %w", err)
+		}
+		if err := le.load(rdir); err != nil {
+			return nil, fmt.Errorf("rewards epoch: %w", err)
+		}
+		m := NewMultiEpoch(&Options{EpochSearchConcurrency: 4})
+		if err := m.AddEpoch(c08RewardsEpochNo, le.Ep); err != nil {
+			return nil, err
+		}
+		w.multis = append(w.multis, m)
+		w.handlers = append(w.handlers, newMultiEpochHandler(m, nil))
+		w.epochsOf = append(w.epochsOf, []uint64{c08RewardsEpochNo})
+		w.gsfaOf = append(w.gsfaOf, false)
+		w.rewardEp = le
+		for _, b := range g2.Blocks {
+			w.rewardSlots = append(w.rewardSlots, b.Slot)
+		}
+	}
 	seenAddr := map[solana.PublicKey]bool{}
 	for _, le := range w.eps {
 		first, last := le.G.Blocks[0].Slot, le.G.Blocks[len(le.G.Blocks)-1].Slot
@@ -363,7 +494,8 @@ func c08BuildWorld(dir string, child bool) (*c08World, error) {
 					w.sigs = append(w.sigs, tx.Sig)
 					w.txBytes = append(w.txBytes, tx.Raw)
 					w.metaRaw = append(w.metaRaw, tx.Meta)
-					w.txAddrs = append(w.txAddrs, append(append([]solana.PublicKey(nil), tx.Accounts...), tx.Loaded...))
+					w.txStatic = append(w.txStatic, tx.Accounts)
+					w.txLoaded = append(w.txLoaded, tx.Loaded)
 					for _, a := range tx.Accounts {
 						if !seenAddr[a] {
 							seenAddr[a] = true
@@ -381,21 +513,22 @@ func c08BuildWorld(dir string, child bool) (*c08World, error) {
 
 func (w *c08World) worldLine(i int) string {
 	var e []string
-	for _, n := range w.epochsOf[i] {
-		e = append(e, fmt.Sprint(n))
+	for k, n := range w.epochsOf[i] {
+		gf := 0
+		if i < 3 && w.eps[k].Ep.gsfaReader != nil {
+			gf = 1
+		}
+		e = append(e, fmt.Sprintf("%d:%d", n, gf))
 	}
 	es := strings.Join(e, ",")
 	if es == "" {
 		es = "-"
 	}
-	g, jp := 0, 0
-	if w.gsfaOf[i] {
-		g = 1
-	}
+	jp := 0
 	if txstatus.IsEnabled() {
 		jp = 1
 	}
-	return fmt.Sprintf("world %d %s %d %d", i, es, g, jp)
+	return fmt.Sprintf("world %d %s %d", i, es, jp)
 }
 
 // ---------------------------------------------------------------------------------------------------------
@@ -478,13 +611,14 @@ func (r c08Resp) classOf() string {
 	return fmt.Sprintf("%d:result", r.status)
 }
 
-// classes the data layer may answer with once parsing and the prelude are passed (JSON-RPC) / for the api routes
-func c08IsDataClass(c string) bool {
+// c08Canon: the classes a data-layer answer may take are printed as `data` (by the model's driver as well):
+// what the archive answers is the subject of other properties; here only "an answer, not a panic" matters.
+func c08Canon(c string) string {
 	switch c {
 	case "200:result", "200:null", "200:e-32009", "200:e-32603", "200:body", "404:empty", "500:empty", "200:empty":
-		return true
+		return "data"
 	}
-	return false
+	return c
 }
 
 // ---------------------------------------------------------------------------------------------------------
@@ -551,15 +685,19 @@ func (r *c08GetStream) Send(m *old_faithful_grpc.GetResponse) error {
 	}
 	switch x := m.Response.(type) {
 	case *old_faithful_grpc.GetResponse_Error:
-		r.out = append(r.out, "err"+x.Error.Code.String())
+		code := codes.Internal
+		if x.Error.Code == old_faithful_grpc.GetResponseErrorCode_NOT_FOUND {
+			code = codes.NotFound
+		}
+		r.out = append(r.out, c08GrpcClass(code, x.Error.Message))
 	case *old_faithful_grpc.GetResponse_Version:
 		r.out = append(r.out, "version")
 	case *old_faithful_grpc.GetResponse_BlockTime:
-		r.out = append(r.out, "ok")
+		r.out = append(r.out, "data")
 	case *old_faithful_grpc.GetResponse_Block:
-		r.out = append(r.out, "ok")
+		r.out = append(r.out, "data")
 	case *old_faithful_grpc.GetResponse_Transaction:
-		r.out = append(r.out, "ok")
+		r.out = append(r.out, "data")
 	default:
 		r.out = append(r.out, "other")
 	}
@@ -572,9 +710,11 @@ func (r *c08GetStream) Context() context.Context     { return r.ctx }
 func (r *c08GetStream) SendMsg(m any) error          { return nil }
 func (r *c08GetStream) RecvMsg(m any) error          { return nil }
 
+// c08Status: final status class; OK / NotFound / Internal are what the data layer may answer (`data`), except the
+// two answers the model predicts exactly: the epoch of the slot is not loaded, no epoch is loaded at all
 func c08Status(err error) string {
 	if err == nil {
-		return "OK"
+		return "data"
 	}
 	if errors.Is(err, context.Canceled) {
 		return "Canceled"
@@ -582,7 +722,20 @@ func c08Status(err error) string {
 	if errors.Is(err, context.DeadlineExceeded) {
 		return "DeadlineExceeded"
 	}
-	return status.Code(err).String()
+	st, _ := status.FromError(err)
+	return c08GrpcClass(st.Code(), st.Message())
+}
+
+func c08GrpcClass(code codes.Code, msg string) string {
+	switch {
+	case code == codes.NotFound && strings.HasPrefix(msg, "Epoch ") && strings.HasSuffix(msg, "is not available"):
+		return "epoch"
+	case code == codes.Internal && msg == "no epochs available":
+		return "noepochs"
+	case code == codes.OK || code == codes.NotFound || code == codes.Internal:
+		return "data"
+	}
+	return code.String()
 }
 
 // wire round trip: only messages a client can actually send reach the handlers
@@ -714,20 +867,15 @@ func (w *c08World) execOp(line string) string {
 		}
 		return "ok"
 	case "http":
-		// http METHOD RAWPATH BODY CHUNKED NORMPATH CL TREE WANT
+		// http METHOD RAWPATH BODY CHUNKED NORMPATH CL TREE
 		r := &c08HTTP{method: f[1], rawPath: unhx(f[2]), body: []byte(unhx(f[3])), chunked: f[4] == "1"}
-		want := f[8]
 		return c08Guard(func() string {
 			var req fasthttp.Request
 			if err := c08Parse(r.wire(), &req); err != nil {
 				return "http-reject"
 			}
 			resp := c08Serve(w.handlers[w.cur], &req)
-			c := resp.classOf()
-			if want == "d" && c08IsDataClass(c) {
-				return "data"
-			}
-			return c
+			return c08Canon(resp.classOf())
 		})
 	case "raw":
 		wire := []byte(unhx(f[1]))
@@ -742,7 +890,8 @@ func (w *c08World) execOp(line string) string {
 	case "g":
 		return w.execGrpc(f, line)
 	case "bca":
-		// bca <txIndex|garbage> <meta: real|empty|garbage> <accounts csv> — direct call of blockContainsAccounts
+		// bca ITEMS ACCOUNTS — direct call of blockContainsAccounts; ITEMS = ;-separated `g` (undecodable transaction)
+		// or IDX:META:STATICHIT:LOADEDHIT (META real|empty|garbage; the two hit flags are for the model only)
 		return c08Guard(func() string {
 			blk := &old_faithful_grpc.BlockResponse{}
 			for _, item := range strings.Split(f[1], ";") {
@@ -769,13 +918,6 @@ func (w *c08World) execOp(line string) string {
 	return "unknown-op"
 }
 
-func grpcClass(c, want string) string {
-	if want == "d" && (c == "OK" || c == "NotFound" || c == "Internal") {
-		return "data"
-	}
-	return c
-}
-
 func (w *c08World) execGrpc(f []string, line string) string {
 	m := w.multis[w.cur]
 	switch f[1] {
@@ -789,19 +931,19 @@ func (w *c08World) execGrpc(f []string, line string) string {
 		return c08Guard(func() string {
 			req, _ := c08RoundTrip(&old_faithful_grpc.BlockRequest{Slot: *optU64(f[2])}, &old_faithful_grpc.BlockRequest{})
 			_, err := m.GetBlock(context.Background(), req)
-			return grpcClass(c08Status(err), f[3])
+			return c08Status(err)
 		})
 	case "GetBlockTime":
 		return c08Guard(func() string {
 			req, _ := c08RoundTrip(&old_faithful_grpc.BlockTimeRequest{Slot: *optU64(f[2])}, &old_faithful_grpc.BlockTimeRequest{})
 			_, err := m.GetBlockTime(context.Background(), req)
-			return grpcClass(c08Status(err), f[3])
+			return c08Status(err)
 		})
 	case "GetTransaction":
 		return c08Guard(func() string {
 			req, _ := c08RoundTrip(&old_faithful_grpc.TransactionRequest{Signature: []byte(unhx(f[2]))}, &old_faithful_grpc.TransactionRequest{})
 			_, err := m.GetTransaction(context.Background(), req)
-			return grpcClass(c08Status(err), f[3])
+			return c08Status(err)
 		})
 	case "StreamBlocks":
 		// g StreamBlocks START END CANCEL FILTER WANT
@@ -816,7 +958,7 @@ func (w *c08World) execGrpc(f []string, line string) string {
 			}
 			ctx, cancel := c08Ctx(f[4] == "1")
 			defer cancel()
-			return grpcClass(c08Status(m.StreamBlocks(req, &c08BlockStream{ctx: ctx})), f[6])
+			return c08Status(m.StreamBlocks(req, &c08BlockStream{ctx: ctx}))
 		})
 	case "StreamTransactions":
 		// g StreamTransactions START END CANCEL FILTER WANT
@@ -831,7 +973,7 @@ func (w *c08World) execGrpc(f []string, line string) string {
 			}
 			ctx, cancel := c08Ctx(f[4] == "1")
 			defer cancel()
-			return grpcClass(c08Status(m.StreamTransactions(req, &c08TxStream{ctx: ctx})), f[6])
+			return c08Status(m.StreamTransactions(req, &c08TxStream{ctx: ctx}))
 		})
 	case "Get":
 		// g Get ITEMS TAIL SENDFAIL WANTS   ITEMS: ;-separated V | B<slot> | T<slot> | X<sighex> | N ; TAIL: eof|err
@@ -840,7 +982,6 @@ func (w *c08World) execGrpc(f []string, line string) string {
 			if f[4] != "-" {
 				st.failFrom, _ = strconv.Atoi(f[4])
 			}
-			wants := strings.Split(f[5], "")
 			if f[2] != "." {
 				for i, it := range strings.Split(f[2], ";") {
 					g := &old_faithful_grpc.GetRequest{Id: uint64(i + 1)}
@@ -863,11 +1004,6 @@ func (w *c08World) execGrpc(f []string, line string) string {
 				}
 			}
 			final := c08Status(m.Get(st))
-			for i := range st.out {
-				if i < len(wants) && wants[i] == "d" && (st.out[i] == "ok" || st.out[i] == "errNOT_FOUND" || st.out[i] == "errINTERNAL") {
-					st.out[i] = "data"
-				}
-			}
 			o := strings.Join(st.out, ",")
 			if o == "" {
 				o = "."
@@ -879,7 +1015,10 @@ func (w *c08World) execGrpc(f []string, line string) string {
 }
 
 // inChild executes one op line in a child process (same binary, fixture re-opened).
+var c08ChildRuns int
+
 func (w *c08World) inChild(line string) string {
+	c08ChildRuns++
 	cmd := exec.Command(os.Args[0], "-test.run=^TestVerifC08$", "-test.count=1")
 	cmd.Env = append(os.Environ(), "VERIF_C08_CHILD=1", "VERIF_C08_DIR="+w.dir, fmt.Sprintf("VERIF_C08_WORLD=%d", w.cur), "VERIF_C08_OP="+line)
 	var buf bytes.Buffer
@@ -1348,7 +1487,7 @@ func (g *c08Gen) rpcBody() *c08J {
 	return o
 }
 
-func (g *c08Gen) httpLine(r *c08HTTP, tree string, want string) string {
+func (g *c08Gen) httpLine(r *c08HTTP, tree string) string {
 	// the normalised path and Content-Length as fasthttp reports them
 	var req fasthttp.Request
 	np, cl := "", 0
@@ -1364,15 +1503,13 @@ func (g *c08Gen) httpLine(r *c08HTTP, tree string, want string) string {
 	if r.chunked {
 		ch = "1"
 	}
-	return fmt.Sprintf("http %s %s %s %s %s %d %s %s", r.method, hx(r.rawPath), hx(string(r.body)), ch, hx(np), cl, tree, want)
+	return fmt.Sprintf("http %s %s %s %s %s %d %s", r.method, hx(r.rawPath), hx(string(r.body)), ch, hx(np), cl, tree)
 }
 
-// wantOf: would the generator expect this request to reach the data layer? (only used to coarsen the real
-// side's answer to `data`; a wrong guess shows up as a model/implementation difference, never hides one)
 func (g *c08Gen) genRPC() string {
 	body := g.rpcBody()
 	r := &c08HTTP{method: "POST", rawPath: "/", body: body.bytes()}
-	return g.httpLine(r, body.tokens(), "d")
+	return g.httpLine(r, body.tokens())
 }
 
 func (g *c08Gen) genTruncated() string {
@@ -1384,7 +1521,7 @@ func (g *c08Gen) genTruncated() string {
 	cut := 1 + g.rng.Intn(len(b)-1)
 	g.s.Count("body:truncated")
 	r := &c08HTTP{method: "POST", rawPath: "/", body: b[:cut]}
-	return g.httpLine(r, "M", "p")
+	return g.httpLine(r, "M")
 }
 
 func (g *c08Gen) genHTTPShape() string {
@@ -1392,13 +1529,11 @@ func (g *c08Gen) genHTTPShape() string {
 	body := jObj(kv("jsonrpc", jStr("2.0")), kv("id", jInt(1)), kv("method", jStr("getBlock")), kv("params", jArr(jInt(w.slots[g.rng.Intn(len(w.slots))]))))
 	r := &c08HTTP{method: "POST", rawPath: "/", body: body.bytes()}
 	tree := body.tokens()
-	want := "d"
 	switch g.rng.Intn(16) {
 	case 0:
 		g.s.Count("http:metrics")
 		r.rawPath = "/metrics"
 		r.method = g.pick("GET", "POST", "HEAD")
-		want = "p"
 	case 1:
 		g.s.Count("http:health")
 		r.rawPath = g.pick("/health", "/health", "/health/", "/health?x=1", "//health", "/x/../health")
@@ -1465,7 +1600,7 @@ func (g *c08Gen) genHTTPShape() string {
 			tree = "M"
 		}
 	}
-	return g.httpLine(r, tree, want)
+	return g.httpLine(r, tree)
 }
 
 func (g *c08Gen) mutate(b []byte) []byte {
@@ -1614,8 +1749,9 @@ func (g *c08Gen) slotRange() (start uint64, end string, cancelled string) {
 		g.s.Count("grpc:end-absent")
 		end = "-"
 		if start > 1<<64-200 {
-			// start+100 wraps: the loop ends at once or runs for ever depending on the wrap; keep it finite
-			start = 1<<64 - 1 - 100 - uint64(g.rng.Intn(3))
+			// start+100 == 2^64-1 makes `for slot := start; slot <= end; slot++` spin until the context ends
+			// (slot wraps): not a crash, but the harness must not wait for it.  One below and the wrap-around are kept.
+			start = g.pick0([]uint64{1<<64 - 102, 1<<64 - 100, 1<<64 - 1})
 		}
 	case 2:
 		g.s.Count("grpc:end-before-start")
@@ -1655,11 +1791,11 @@ func (g *c08Gen) genGrpc() string {
 	case 0:
 		return "g GetVersion"
 	case 1, 2:
-		return fmt.Sprintf("g GetBlock %d d", g.anySlot())
+		return fmt.Sprintf("g GetBlock %d", g.anySlot())
 	case 3:
-		return fmt.Sprintf("g GetBlockTime %d d", g.anySlot())
+		return fmt.Sprintf("g GetBlockTime %d", g.anySlot())
 	case 4, 5:
-		return fmt.Sprintf("g GetTransaction %s d", hx(g.anySigBytes()))
+		return fmt.Sprintf("g GetTransaction %s", hx(g.anySigBytes()))
 	case 6, 7, 8:
 		start, end, c := g.slotRange()
 		filter := "-"
@@ -1667,7 +1803,7 @@ func (g *c08Gen) genGrpc() string {
 			filter = csvHex(g.accounts(3))
 			g.s.Count("grpc:streamblocks-filter")
 		}
-		return fmt.Sprintf("g StreamBlocks %d %s %s %s d", start, end, c, filter)
+		return fmt.Sprintf("g StreamBlocks %d %s %s %s", start, end, c, filter)
 	case 9, 10, 11, 12:
 		start, end, c := g.slotRange()
 		filter := "-"
@@ -1683,11 +1819,10 @@ func (g *c08Gen) genGrpc() string {
 				start, end = 432000, "432050"
 			}
 		}
-		return fmt.Sprintf("g StreamTransactions %d %s %s %s d", start, end, c, filter)
+		return fmt.Sprintf("g StreamTransactions %d %s %s %s", start, end, c, filter)
 	default:
 		n := g.rng.Intn(6)
 		var items []string
-		wants := ""
 		for i := 0; i < n; i++ {
 			switch g.rng.Intn(6) {
 			case 0:
@@ -1702,12 +1837,10 @@ func (g *c08Gen) genGrpc() string {
 				g.s.Count("grpc:get-no-oneof")
 				items = append(items, "N")
 			}
-			wants += "d"
 		}
 		it := strings.Join(items, ";")
 		if it == "" {
 			it = "."
-			wants = "."
 		}
 		tail := "eof"
 		if g.rng.Intn(6) == 0 {
@@ -1719,7 +1852,7 @@ func (g *c08Gen) genGrpc() string {
 			sf = fmt.Sprint(1 + g.rng.Intn(3))
 			g.s.Count("grpc:get-send-fails")
 		}
-		return fmt.Sprintf("g Get %s %s %s %s", it, tail, sf, wants)
+		return fmt.Sprintf("g Get %s %s %s", it, tail, sf)
 	}
 }
 
@@ -1734,7 +1867,38 @@ func (g *c08Gen) genBca() string {
 		}
 		items = append(items, fmt.Sprintf("%d:%s", g.rng.Intn(len(w.txBytes)), g.pick("real", "real", "empty", "garbage")))
 	}
-	return fmt.Sprintf("bca %s %s", strings.Join(items, ";"), csvHex(g.accounts(3)))
+	return w.bcaLine(items, g.accounts(3))
+}
+
+// bcaLine adds the ground truth the model needs: is one of the accounts a static key / a loaded address of the tx
+func (w *c08World) bcaLine(items []string, accounts []string) string {
+	set := map[string]bool{}
+	for _, a := range accounts {
+		set[a] = true
+	}
+	hit := func(ks []solana.PublicKey) int {
+		for _, k := range ks {
+			if set[k.String()] {
+				return 1
+			}
+		}
+		return 0
+	}
+	var out []string
+	for _, it := range items {
+		if it == "g" {
+			out = append(out, it)
+			continue
+		}
+		p := strings.Split(it, ":")
+		i, _ := strconv.Atoi(p[0])
+		lh := 0
+		if p[1] == "real" {
+			lh = hit(w.txLoaded[i])
+		}
+		out = append(out, fmt.Sprintf("%s:%s:%d:%d", p[0], p[1], hit(w.txStatic[i]), lh))
+	}
+	return fmt.Sprintf("bca %s %s", strings.Join(out, ";"), csvHex(accounts))
 }
 
 // directed ops: the shapes the property names, once per world
@@ -1743,7 +1907,7 @@ func (g *c08Gen) directed() []string {
 	var out []string
 	rpc := func(o *c08J) {
 		r := &c08HTTP{method: "POST", rawPath: "/", body: o.bytes()}
-		out = append(out, g.httpLine(r, o.tokens(), "d"))
+		out = append(out, g.httpLine(r, o.tokens()))
 	}
 	base := func(method string) *c08J {
 		return jObj(kv("jsonrpc", jStr("2.0")), kv("id", jInt(1)), kv("method", jStr(method)))
@@ -1773,33 +1937,33 @@ func (g *c08Gen) directed() []string {
 	a0 := w.addrs[0].String()
 	out = append(out,
 		"g GetVersion",
-		fmt.Sprintf("g GetBlock %d d", s0),
-		fmt.Sprintf("g GetBlockTime %d d", s0),
-		fmt.Sprintf("g GetTransaction %s d", hx(string(w.sigs[0][:]))),
-		"g GetTransaction - d",
-		fmt.Sprintf("g StreamBlocks %d %d 0 - d", s0, s0+20),
-		fmt.Sprintf("g StreamBlocks %d - 0 %s d", s0, csvHex([]string{a0})),
-		fmt.Sprintf("g StreamBlocks %d %d 0 %s d", s0, s0+20, csvHex([]string{"not-base58", ""})),
-		fmt.Sprintf("g StreamTransactions %d %d 0 - d", s0, s0+20),
-		fmt.Sprintf("g StreamTransactions %d %d 0 V-;F-;I.;E.;R. d", s0, s0+20), // StreamTransactionsFilter{}
-		fmt.Sprintf("g StreamTransactions %d %d 0 V1;F-;I.;E.;R. d", s0, s0+20),
-		fmt.Sprintf("g StreamTransactions %d %d 0 V-;F1;I.;E.;R. d", s0, s0+20),
-		fmt.Sprintf("g StreamTransactions %d %d 0 V1;F1;I.;E.;R. d", s0, s0+20),
-		fmt.Sprintf("g StreamTransactions %d %d 0 V1;F1;I.;E%s;R. d", s0, s0+20, csvHex([]string{"not-base58"})),
-		fmt.Sprintf("g StreamTransactions %d %d 0 V1;F1;I.;E.;R%s d", s0, s0+20, csvHex([]string{""})),
-		fmt.Sprintf("g StreamTransactions %d %d 0 V1;F1;I%s;E.;R. d", s0, s0+20, csvHex([]string{strings.Repeat("1", 31)})),
-		fmt.Sprintf("g StreamTransactions %d %d 0 V1;F1;I%s;E.;R. d", s0, s0+20, csvHex([]string{a0})),
-		fmt.Sprintf("g StreamTransactions %d %d 0 V-;F-;I%s;E.;R. d", s0, s0+20, csvHex([]string{a0})),
-		fmt.Sprintf("g StreamTransactions %d %d 0 V1;F1;I%s;E%s;R%s d", s0, s0+20, csvHex([]string{a0}), csvHex([]string{b58n(g.rng, 32)}), csvHex([]string{a0})),
-		"g StreamTransactions 864005 5 0 - d",               // end two epochs before start
-		"g StreamTransactions 5 18446744073709551615 1 - d", // enormous range, context already cancelled
-		"g StreamBlocks 5 18446744073709551615 1 - d",
-		fmt.Sprintf("g Get V;B%d;T%d;X%s;N eof - dddd", s0, s0, hx(string(w.sigs[0][:]))),
-		"g Get . eof - .",
-		"g Get N eof - d",
-		fmt.Sprintf("bca 0:real %s", csvHex([]string{a0})),
-		fmt.Sprintf("bca 0:garbage %s", csvHex([]string{b58n(g.rng, 32)})),
-		fmt.Sprintf("bca 0:empty;g;1:real %s", csvHex([]string{"x"})),
+		fmt.Sprintf("g GetBlock %d", s0),
+		fmt.Sprintf("g GetBlockTime %d", s0),
+		fmt.Sprintf("g GetTransaction %s", hx(string(w.sigs[0][:]))),
+		"g GetTransaction -",
+		fmt.Sprintf("g StreamBlocks %d %d 0 -", s0, s0+20),
+		fmt.Sprintf("g StreamBlocks %d - 0 %s", s0, csvHex([]string{a0})),
+		fmt.Sprintf("g StreamBlocks %d %d 0 %s", s0, s0+20, csvHex([]string{"not-base58", ""})),
+		fmt.Sprintf("g StreamTransactions %d %d 0 -", s0, s0+20),
+		fmt.Sprintf("g StreamTransactions %d %d 0 V-;F-;I.;E.;R.", s0, s0+20), // StreamTransactionsFilter{}
+		fmt.Sprintf("g StreamTransactions %d %d 0 V1;F-;I.;E.;R.", s0, s0+20),
+		fmt.Sprintf("g StreamTransactions %d %d 0 V-;F1;I.;E.;R.", s0, s0+20),
+		fmt.Sprintf("g StreamTransactions %d %d 0 V1;F1;I.;E.;R.", s0, s0+20),
+		fmt.Sprintf("g StreamTransactions %d %d 0 V1;F1;I.;E%s;R.", s0, s0+20, csvHex([]string{"not-base58"})),
+		fmt.Sprintf("g StreamTransactions %d %d 0 V1;F1;I.;E.;R%s", s0, s0+20, csvHex([]string{""})),
+		fmt.Sprintf("g StreamTransactions %d %d 0 V1;F1;I%s;E.;R.", s0, s0+20, csvHex([]string{strings.Repeat("1", 31)})),
+		fmt.Sprintf("g StreamTransactions %d %d 0 V1;F1;I%s;E.;R.", s0, s0+20, csvHex([]string{a0})),
+		fmt.Sprintf("g StreamTransactions %d %d 0 V-;F-;I%s;E.;R.", s0, s0+20, csvHex([]string{a0})),
+		fmt.Sprintf("g StreamTransactions %d %d 0 V1;F1;I%s;E%s;R%s", s0, s0+20, csvHex([]string{a0}), csvHex([]string{b58n(g.rng, 32)}), csvHex([]string{a0})),
+		"g StreamTransactions 864005 5 0 -",               // end two epochs before start
+		"g StreamTransactions 5 18446744073709551615 1 -", // enormous range, context already cancelled
+		"g StreamBlocks 5 18446744073709551615 1 -",
+		fmt.Sprintf("g Get V;B%d;T%d;X%s;N eof -", s0, s0, hx(string(w.sigs[0][:]))),
+		"g Get . eof -",
+		"g Get N eof -",
+		w.bcaLine([]string{"0:real"}, []string{a0}),
+		w.bcaLine([]string{"0:garbage"}, []string{b58n(g.rng, 32)}),
+		w.bcaLine([]string{"0:empty", "g", "1:real"}, []string{"x"}),
 	)
 	return out
 }
@@ -1874,11 +2038,11 @@ func TestVerifC08(t *testing.T) {
 	}
 
 	g := &c08Gen{w: w, rng: zz.NewRNG(zz.Seed()), s: s}
-	nRPC, nShape, nTrunc, nRaw, nGrpc, nBca := 1300, 220, 60, 120, 130, 20
+	nRPC, nShape, nTrunc, nRaw, nGrpc, nBca := 1700, 250, 80, 200, 150, 25
 	if zz.Thorough() {
-		nRPC, nShape, nTrunc, nRaw, nGrpc, nBca = 12000, 1500, 500, 30000, 1200, 100
+		nRPC, nShape, nTrunc, nRaw, nGrpc, nBca = 20000, 3000, 1000, 40000, 2000, 200
 	}
-	for wi := range w.multis {
+	for wi := 0; wi < 3; wi++ {
 		w.cur = wi
 		run(w.worldLine(wi))
 		for _, l := range g.directed() {
@@ -1903,6 +2067,28 @@ func TestVerifC08(t *testing.T) {
 			run(g.genBca())
 		}
 	}
+	if len(w.multis) > 3 {
+		// blocks with Rewards nodes: the commission of a reward is a string in the archive ("" / "7" / not a number)
+		w.cur = 3
+		run(w.worldLine(3))
+		base := func(method string) *c08J {
+			return jObj(kv("jsonrpc", jStr("2.0")), kv("id", jInt(1)), kv("method", jStr(method)))
+		}
+		for i, slot := range w.rewardSlots {
+			s.Count("rewards:block-with-commission")
+			_ = i
+			for _, opts := range []*c08J{nil, jObj(kv("rewards", jBool(true))), jObj(kv("rewards", jBool(false))), jObj(kv("encoding", jStr("base64")))} {
+				o := base("getBlock").with("params", jArr(jInt(slot)))
+				if opts != nil {
+					o = base("getBlock").with("params", jArr(jInt(slot), opts))
+				}
+				r := &c08HTTP{method: "POST", rawPath: "/", body: o.bytes()}
+				run(g.httpLine(r, o.tokens()))
+			}
+			run(fmt.Sprintf("g GetBlock %d", slot))
+		}
+		w.rewardEp.Ep.Close()
+	}
 	keys := make([]string, 0, len(seenKey))
 	for k := range seenKey {
 		keys = append(keys, k)
@@ -1911,6 +2097,7 @@ func TestVerifC08(t *testing.T) {
 	for _, k := range keys {
 		s.Add("panics:"+k, seenKey[k])
 	}
+	s.Add("ops-run-in-a-child-process", c08ChildRuns)
 	for _, le := range w.eps {
 		le.Ep.Close()
 	}
